@@ -213,6 +213,18 @@ Conflicts(fs0) ==
                    j \in { k \in 1..Len(d.rels) : \E y \in AllDecls(fs) : y.name = d.name /\ (y.kind = "type" \/ Before(y, d)) /\ y # d /\ d.rels[k] \in Range(y.rels) } }
                : d \in { x \in ExtDecls(fs) : \E y \in TypeDecls(fs) : y.name = x.name } }
 ConflictFree(fs) == Conflicts(fs) = {}
+\* Files that hold a conflict whatever one thinks of conflicts among the rejected declarations themselves: a later declaration of a
+\* type / condition name, an extension of a type nobody declares, an extension relation that the FIRST declaration of the type or an
+\* earlier extension already has. (Conflicts counts a clash with the relations of a duplicate - itself rejected - declaration as well;
+\* whether that one is reported is not fixed by the statement.) Every such file must be named by one of the returned errors.
+MustBeNamed(fs0) ==
+  LET fs == [i \in 1..Len(fs0) |-> IF ParseError(fs0[i]) THEN [fs0[i] EXCEPT !.decls = <<>>, !.conds = <<>>] ELSE fs0[i]]
+      first(x) == x.kind = "type" /\ ~\E y \in TypeDecls(fs) : y.name = x.name /\ Before(y, x)
+  IN   { fs[d.fi].name : d \in { x \in TypeDecls(fs) : \E y \in TypeDecls(fs) : y.name = x.name /\ Before(y, x) } }
+  \cup { fs[c.fi].name : c \in { x \in AllConds(fs) : \E y \in AllConds(fs) : y.name = x.name /\ (y.fi < x.fi \/ (y.fi = x.fi /\ y.ci < x.ci)) } }
+  \cup { fs[d.fi].name : d \in { x \in ExtDecls(fs) : ~\E y \in TypeDecls(fs) : y.name = x.name } }
+  \cup { fs[d.fi].name : d \in { x \in ExtDecls(fs) : \E y \in AllDecls(fs) : /\ y.name = x.name /\ y # x /\ (first(y) \/ (y.kind = "ext" /\ Before(y, x)))
+                                                                              /\ Range(x.rels) \cap Range(y.rels) # {} } }
 \* the attributed union: types in file/declaration order; relations of the declaring `type` unattributed, relations added by
 \* an extension attributed to the extending module and file; conditions attributed to module and file
 MergedModel(fs) ==
@@ -241,7 +253,7 @@ Load == /\ pc = "load" /\ inp' = SetAt(gi) /\ pc' = "announce"
 Announce == /\ pc = "announce" /\ pc' = "file"
             /\ UNCHANGED <<gi, inp, fi, remC, remF, curF, ti, remR, types, raw, ext, conds, errs>>
             /\ PrintT(ToJson([rec |-> "input", id |-> inp.id, files |-> [i \in 1..Len(Files) |-> [name |-> Files[i].name, text |-> Text(Files[i], i), abs |-> Files[i], lines |-> LineTable(Files[i])]],
-                              ideal |-> [ok |-> ConflictFree(Files), conflicts |-> Conflicts(Files), model |-> MergedModel(Files), typeseq |-> SeqOfTypes(Files, 1)]]))
+                              ideal |-> [ok |-> ConflictFree(Files), conflicts |-> Conflicts(Files), mustname |-> MustBeNamed(Files), model |-> MergedModel(Files), typeseq |-> SeqOfTypes(Files, 1)]]))
 Next == \/ Load \/ Announce \/ DoFile \/ DoCond \/ EndConds \/ PickExtFile \/ ExtType \/ ExtRel \/ EndExtRels \/ EndExtType \/ Finish \/ Panic
 Spec == Init /\ [][Next]_vars
 
